@@ -65,6 +65,7 @@ type PathSample struct {
 	PCSize    int         `json:"pc_size"`
 	Steps     int64       `json:"steps"`
 	Draws     []ModelDraw `json:"model,omitempty"`
+	UFs       []ModelUF   `json:"ufs,omitempty"`
 }
 
 type oblStat struct {
@@ -493,8 +494,9 @@ func (ex *Explorer) worker(id int, wg *sync.WaitGroup) {
 			ps := PathSample{Outcome: outcome, Decisions: len(in.trace), Choices: choicesString(in.trace), PCSize: len(in.pc), Steps: in.steps}
 			ex.mu.Unlock()
 			if outcome == "ok" {
-				if d, _, ok := in.modelFor(nil); ok {
+				if d, u, ok := in.modelFor(nil); ok {
 					ps.Draws = d
+					ps.UFs = u
 				}
 			}
 			ex.mu.Lock()
